@@ -350,6 +350,19 @@ func (e *Ev) specCall(name string, n *ast.CallExpr) (Term, bool) {
 			return Term{S: app(e.allocPred, s), Sort: sBool, T: boolT}, true
 		}
 		return Term{S: app("fresh$", s), Sort: sBool, T: boolT}, true
+	case "runeAt", "runeWidth":
+		// Go's decoder on a string at a byte offset (the functions the engine's range-over-string
+		// model uses)
+		g := e.g()
+		g.Pre.add("(declare-fun str_runeat (Str Int) (_ BitVec 32))")
+		g.Pre.add("(declare-fun str_runewidth (Str Int) Int)")
+		g.Pre.add("(assert (forall ((s Str) (i Int)) (! (=> (and (<= 0 i) (< i (str_len s))) (and (<= 1 (str_runewidth s i)) (<= (+ i (str_runewidth s i)) (str_len s)))) :pattern ((str_runewidth s i)))))")
+		x := e.ev(n.Args[0])
+		i := e.asInt(e.ev(n.Args[1]))
+		if name == "runeAt" {
+			return Term{S: app("str_runeat", x.S, i), Sort: sBV32, T: types.Typ[types.Rune], Signed: true}, true
+		}
+		return Term{S: app("str_runewidth", x.S, i), Sort: sInt, T: types.Typ[types.Int], Signed: true}, true
 	case "calls":
 		// calls("KEY"): how many calls of function KEY the path has made so far (a ghost counter;
 		// lets a contract say that one call is always accompanied by another)
